@@ -10,6 +10,7 @@ pub mod c09;
 pub mod c11;
 pub mod c12;
 pub mod c13;
+pub mod c14;
 
 pub fn run(id: &str, rep: &mut Report) -> bool {
     match id {
@@ -20,6 +21,7 @@ pub fn run(id: &str, rep: &mut Report) -> bool {
         "C11" => c11::run(rep),
         "C12" => c12::run(rep),
         "C13" => c13::run(rep),
+        "C14" => c14::run(rep),
         _ => return false,
     }
     true
@@ -35,10 +37,14 @@ pub fn replay(id: &str, case: &Value) -> Result<Vec<(String, String)>, String> {
         "C11" => c11::replay(case),
         "C12" => c12::replay(case),
         "C13" => c13::replay(case),
+        "C14" => c14::replay(case),
         _ => Err(format!("no replay for {}", id)),
     }
 }
 
-pub fn worker(_id: &str, _args: &[String]) -> i32 {
-    2
+pub fn worker(id: &str, args: &[String]) -> i32 {
+    match id {
+        "C14" => c14::worker(args),
+        _ => 2,
+    }
 }
